@@ -280,18 +280,63 @@ def rule_g(ctx, R):
     ctx.fn(e2.path)
     v = Vals(e2)
     sites = [(bi, t) for bi, t, cb in R.local_callees(e2) if cb is e1]
-    if len(sites) != 1:
-        return ctx.lost("C17-g", "call of the x-space entry in generate_sample_from_rng", e2.path)
-    bi, t = sites[0]
-    r0 = v.root(t["args"][0])
-    ctx.ob("C17-g", "forwards self", r0.kind == "arg" and r0.base[1] == 1 and not r0.path, e2.path, "rng-entry-self", where=pat.where(t))
-    # edge_data param: Vec<(Option<T>, Vector)>
-    ed = [l["i"] for l in e2.locals[1:e2.arg_count + 1] if l["ty"].startswith("alloc::vec::Vec<")]
-    r2 = v.root(t["args"][2])
-    ctx.ob("C17-g", "forwards the caller's edge_data", len(ed) == 1 and r2.kind == "arg" and r2.base[1] == ed[0] and not r2.path, e2.path,
-           "rng-entry-edge-data", where=pat.where(t), detail="argument root %r" % (r2,))
+    ed = [l["i"] for l in e2.locals[1:e2.arg_count + 1] if l["ty"].startswith("alloc::vec::Vec<") or ("Option<" in l["ty"] and "Vector" in l["ty"])]
+    if len(sites) == 1:
+        bi, t = sites[0]
+        r0 = v.root(t["args"][0])
+        ctx.ob("C17-g", "forwards self", r0.kind == "arg" and r0.base[1] == 1 and not r0.path, e2.path, "rng-entry-self", where=pat.where(t))
+        # edge_data param: Vec<(Option<T>, Vector)>
+        r2 = v.root(t["args"][2])
+        ctx.ob("C17-g", "forwards the caller's edge_data", len(ed) == 1 and r2.kind == "arg" and r2.base[1] == ed[0] and not r2.path, e2.path,
+               "rng-entry-edge-data", where=pat.where(t), detail="argument root %r" % (r2,))
+        slice_op = t["args"][1]
+    else:
+        # sibling form: both entries hand over to the same sampling routine (a shared private delegate, inlined here): the two calls
+        # must agree argument by argument — what the x-space entry derives from self / edge_data / settings, this entry derives the same
+        # way from its own parameters of the same type — and the point is the only argument that differs
+        try:
+            s_ = R.sample()
+        except RoleLost as e:
+            return ctx.lost("C17-g", str(e))
+        v1 = Vals(e1)
+        c1 = [(bi, t) for bi, t, cb in R.local_callees(e1) if cb is s_]
+        c2 = [(bi, t) for bi, t, cb in R.local_callees(e2) if cb is s_]
+        if len(c1) != 1 or len(c2) != 1 or len(c1[0][1]["args"]) != len(c2[0][1]["args"]):
+            return ctx.lost("C17-g", "call of the x-space entry (or of the same sampling routine) in generate_sample_from_rng", e2.path)
+        t1, (bi, t) = c1[0][1], c2[0]
+        slice_op = None
+        agree, det_ = True, []
+        def same_value(r1_, r2_, depth=0):
+            """The two roots (one per entry) denote the same thing: corresponding parameters (same type / both self / both the edge data)
+            with the same projection, equal constants, or calls of the same function on corresponding arguments (`v.as_slice()`)."""
+            if r1_.kind == "arg" and r2_.kind == "arg":
+                ty1_, ty2_ = e1.local_ty(r1_.base[1]), e2.local_ty(r2_.base[1])
+                return r1_.path == r2_.path and (ty1_ == ty2_ or (r1_.base[1] == 1 and r2_.base[1] == 1) or ("Option<" in ty1_ and "Option<" in ty2_))
+            if r1_.kind == "const" and r2_.kind == "const":
+                return r1_.base == r2_.base
+            if r1_.kind == "call" and r2_.kind == "call" and depth < 4 and r1_.path == r2_.path:
+                ta, tb = e1.blocks[r1_.base[1]]["term"], e2.blocks[r2_.base[1]]["term"]
+                ca, cb_ = ta.get("callee") or {}, tb.get("callee") or {}
+                if norm_path(ca.get("path") or "") != norm_path(cb_.get("path") or "") or len(ta["args"]) != len(tb["args"]):
+                    return False
+                return all(same_value(v1.root(x), v.root(y), depth + 1) for x, y in zip(ta["args"], tb["args"]))
+            return False
+        for i_, (a1, a2) in enumerate(zip(t1["args"], t["args"])):
+            r1_, r2_ = v1.root(a1), v.root(a2)
+            ty1 = e1.local_ty(r1_.base[1]) if r1_.kind == "arg" else None
+            is_slice = ty1 is not None and ty1.startswith("&[") and not r1_.path and "Option<" not in ty1
+            if is_slice:
+                slice_op = a2
+                continue
+            if not same_value(r1_, r2_):
+                agree = False
+                det_.append("argument %d: %r vs %r" % (i_, r1_, r2_))
+        ctx.ob("C17-g", "both entries hand the same self-, edge_data- and settings-derived arguments to the sampling routine", agree and slice_op is not None,
+               e2.path, "rng-entry-sibling-arguments", where=pat.where(t), detail="; ".join(det_) or "no slice argument found")
+        if slice_op is None:
+            return
     # slice argument: deref of the collected vector
-    r1 = v.root(t["args"][1])
+    r1 = v.root(slice_op)
     chain = []
     cur = r1
     names = []
